@@ -143,6 +143,7 @@ func runC03() {
 		nShapes = 600
 	}
 	nShapes = scaled(nShapes)
+	asyncRecoveryFamily(rnd.Fork(), 4)
 	for n := 0; n < nShapes; n++ {
 		r := rnd.Fork()
 		s := genShape(r)
